@@ -14,6 +14,12 @@ Injection points (kind -> main-thread operation that follows):
     top (the `while self.alive` test) . notify . select . accept . lock:on_client_socket_readable . submit . addcb .
     wait0 . wait1 . parent . lock:murder_keepalived (pop / put back / unregister) . close (reaper) .
     shutdown . pclose . lclose . waitall
+Fine-grained mode (params["fine"]): the completion of a pool job (Future.set_result ->
+finish_request) runs as a greenlet that can be suspended at its visible operations -- lock
+acquire / release, poller.register / unregister, _keep append / appendleft / popleft / remove --
+(`finish c n` / `resume c n`: run until the n-th visible operation), and the same operations of
+the main thread become injection points (`v:<op>`); the lock really excludes.  No OS threads,
+the baton is passed explicitly, so runs stay deterministic and replayable.
 
 A run returns {"cfg", "ev" (observable events for the property monitor), "full" (every event
 with the projected state, for conformance), "decisions" (the schedule as applied: replayable)}.
@@ -22,6 +28,8 @@ import os
 import signal
 import sys
 
+import greenlet
+
 from drivers import simos_net as sn
 from drivers import simos_threads as sthr
 
@@ -29,7 +37,21 @@ P_EVENTS = {"loop", "accept", "submit", "start", "jobend", "finish", "cancel", "
             "reg", "connect", "send", "leave", "tick", "term", "quiescent", "exit", "crash", "pdead",
             "wouldblock"}
 ENV_STEPS = ("connect", "send", "leave", "tick", "term", "pdead", "failsend",
-             "start", "handle", "finish", "crash", "cancel")
+             "start", "handle", "finish", "crash", "cancel", "resume")
+
+
+class PoolG:
+    """a pool job's completion (Future.set_result -> finish_request) running as a greenlet
+    (fine-grained mode): it runs until its budget says yield -- an int n: at its n-th visible
+    operation from now; a str: just before the first visible operation of that kind; -1: never --
+    or until it blocks on the lock."""
+
+    def __init__(self, c, g):
+        self.c, self.g = c, g
+        self.budget = -1
+        self.nv = 0
+        self.blocked = False
+        self.at = None
 MURDER_KINDS = ("lock:murder_keepalived",)
 
 
@@ -80,6 +102,10 @@ class Sim:
         self.ka = self.p["ka"]
         self.nconn = self.p.get("nconn", 3)
         self.maxreq = self.p.get("maxreq", 2)
+        self.fine = bool(self.p.get("fine"))     # interleave pool completions at visible operations
+        self.main_g = greenlet.getcurrent()
+        self.grecs = {}
+        self.susp = {}
         self.sched = sched
         self.max_ip = max_ip
         self.busy = False
@@ -120,6 +146,9 @@ class Sim:
         w.tpool = self.pool
         w.poller = self.poller
         w._lock = sthr.SimLock(self)
+        if self.fine:
+            w._keep = sthr.VDeque()
+            w._keep.owner = self
         w.is_parent_alive = self._parent_alive
         w.pid = 4242
         self.worker = w
@@ -148,6 +177,7 @@ class Sim:
         return not self.parent_dead
 
     def run(self):
+        self.main_g = greenlet.getcurrent()
         g = load_gthread()
         saved = (g.time, g.futures)
         g.time = self.clock
@@ -166,6 +196,9 @@ class Sim:
                 self.busy = True
                 try:
                     self.sched.at_exit(self)
+                    for rec in list(self.susp.values()):      # nothing stays suspended
+                        while not rec.g.dead:
+                            self._resume(rec, -1)
                 finally:
                     self.busy = False
                 self.emit("exit")
@@ -194,7 +227,7 @@ class Sim:
                 "alive": bool(w.alive), "now": self.clock.ticks(),
                 "queue": [j.c for j in self.pool.queued()],
                 "running": sorted(j.c for j in self.pool.jobs if j.state == "running"),
-                "handled": sorted(j.c for j in self.pool.jobs if j.state == "handled")}
+                "handled": sorted(j.c for j in self.pool.jobs if j.state in ("handled", "finishing"))}
 
     def emit(self, e, c=0, x=""):
         w = self.worker
@@ -205,8 +238,54 @@ class Sim:
         self.events.append(rec)
 
     # --- injection points ---------------------------------------------------------------------
+    # --- fine-grained mode: greenlets --------------------------------------------------------
+    def is_main(self, g):
+        return g is self.main_g
+
+    def vop(self, kind, c=None):
+        """a visible operation is about to happen in the current (simulated) thread"""
+        if not self.fine:
+            return
+        g = greenlet.getcurrent()
+        if g is self.main_g:
+            self.ip("v:" + kind, c)
+            return
+        rec = self.grecs.get(g)
+        if rec is None:
+            return
+        rec.nv += 1
+        b = rec.budget
+        if (isinstance(b, int) and 0 < b <= rec.nv) or (isinstance(b, str) and b == kind):
+            rec.at = kind
+            self.emit("yield", rec.c, kind)
+            self.main_g.switch()
+
+    def pool_blocked(self):
+        rec = self.grecs[greenlet.getcurrent()]
+        rec.blocked = True
+        self.emit("blocked", rec.c)
+        self.main_g.switch()
+        rec.blocked = False
+
+    def run_until_unlocked(self, holder):
+        """the main thread needs the lock a suspended pool greenlet holds: that one runs on until
+        it has released it (deterministic consequence, not a scheduling decision)"""
+        self._resume(self.grecs[holder], "unlock")
+
+    def runnable(self, rec):
+        lk = self.worker._lock
+        return not (rec.blocked and lk.depth > 0 and lk.holder is not rec.g)
+
+    def _resume(self, rec, budget):
+        rec.budget = -1 if budget in ("", None) else budget
+        rec.nv = 0
+        rec.g.switch()
+        if rec.g.dead:
+            self.susp.pop(rec.c, None)
+            self.grecs.pop(rec.g, None)
+
     def ip(self, kind, c=None):
-        if self.busy:
+        if self.busy or greenlet.getcurrent() is not self.main_g:
             return None
         if kind == "top":
             self.in_murder = False
@@ -265,6 +344,9 @@ class Sim:
                 out.append(["finish", j.c])
             elif j.state == "queued":
                 out.append(["cancel", j.c])
+        for rec in self.susp.values():
+            if self.runnable(rec):
+                out.append(["resume", rec.c])
         return out
 
     def is_enabled(self, step):
@@ -303,6 +385,15 @@ class Sim:
             self.parent_dead = True
         elif name == "failsend":
             self.net.conns[c].fail_send = True
+        elif name == "finish" and self.fine:
+            rec = PoolG(c, greenlet.greenlet(lambda: self.pool.finish(c)))
+            self.grecs[rec.g] = rec
+            self.susp[c] = rec
+            self._resume(rec, arg)
+            return
+        elif name == "resume":
+            self._resume(self.susp[c], arg)
+            return
         elif name in ("start", "handle", "finish", "crash", "cancel"):
             getattr(self.pool, name)(c)
             return                      # the executor emitted the event
@@ -322,6 +413,9 @@ class Sim:
         return False
 
     def job_step(self):
+        for rec in self.susp.values():
+            if self.runnable(rec):
+                return ["resume", rec.c, -1]
         c = self.pool.can_start()
         for j in self.pool.jobs:
             if j.state == "handled":
@@ -402,7 +496,8 @@ class RandomSched(BaseSched):
         self.p_step = p_step
         self.allow_term = rng.random() < term_p
         self.w = {"connect": 5, "send": 6, "leave": 2, "tick": 3, "term": 0.15, "start": 6, "handle": 5,
-                  "finish": 5, "crash": 0.25, "cancel": 0.15}
+                  "finish": 5, "crash": 0.25, "cancel": 0.15, "resume": 2}
+        self.budgets = [-1, -1, 1, 1, 2, 2, 3, 3, 4]
         if weights:
             self.w.update(weights)
 
@@ -428,6 +523,11 @@ class RandomSched(BaseSched):
             if not en or sum(ws) <= 0:
                 break
             s = rng.choices(en, ws)[0]
+            if sim.fine and s[0] in ("finish", "resume"):
+                if s[0] == "finish" and rng.random() < 0.5 and sim.is_enabled(["send", s[1]]):
+                    # the client's next request is already waiting when the completion is published
+                    sim.apply(["send", s[1], rng.choice("kkc")])
+                s = s + [rng.choice(self.budgets)]
             sim.apply(s)
             if s[0] == "term":
                 break
